@@ -12,4 +12,18 @@ PROPS = {
     },
 }
 
+PROPS["C07"] = {
+    "modules": ["Hertz.Props.C07"],
+    "rule": "Every string of <=7 (quick) / <=9 (thorough) tokens over {/ . a %2e %2f % \\} through normalizePath and CleanPath, "
+            "plus random longer paths built from a segment vocabulary (.., ., %2e%2E, %2f, %252e, ..., random) with mutations.",
+    "exhaustive_note": "all token strings up to the stated length are enumerated completely (1.0M strings in quick)",
+    "level_text": "Containment (leading slash, no '..' segment, no inner empty or '.' segment) proved in Lean for the model of normalizePath "
+                  "for every byte string, including termination of the /../ loop; the model is compared with the Go function on ~1M "
+                  "exhaustively enumerated strings per run, and the implementation's output is checked against the stack-machine reference "
+                  "and the containment predicate on every case. CleanPath: model compared and predicate checked per case (theorem open).",
+    "level_note": "Trusted: Lean kernel, table translator (Hex2intTable), harness/driver. Not proved: equality with the stack reference "
+                  "(checked per case), CleanPath containment (checked per case). Windows separator branch not modelled.",
+    "assumptions": ["unix build (filepath.Separator == '/')"],
+}
+
 NOT_CLAIMED = {}
